@@ -44,6 +44,38 @@ class Lock:
 # ---------------------------------------------------------------------------------------------
 # regeneration (tie R)
 
+# table name of `extract` -> the generated Lean modules under Zrnt/Gen it writes
+GEN_TABLE_MODULES = {"configs": ["Configs"], "faultsites": ["FaultSites"], "lockfacts": ["LockFacts", "LockFactsOk"],
+                     "sszfacts": ["SszFacts"], "statefacts": ["StateFacts"]}
+
+
+def regen_items_in_cone(cone_files):
+    """Regenerated items a Lean module depends on, derived from its import cone: `extract:<table>` for every
+    generated table module in the cone, `go2lean:<Fn>` for every translated function whose name occurs in a
+    cone file other than GoFuns.lean itself. Used to charge a failing regeneration item to exactly the
+    properties whose theorems read it (in addition to what the props entry lists by hand)."""
+    items = set()
+    mods = {os.path.basename(p)[:-5] for p in cone_files if "/Zrnt/Gen/" in p}
+    for tab, ms in GEN_TABLE_MODULES.items():
+        if mods & set(ms):
+            items.add("extract:" + tab)
+    if "GoFuns" in mods:
+        try:
+            fns = list(json.load(open(os.path.join(LEAN, "Zrnt/Gen/GoFuns.lean.status.json"))))
+        except Exception:
+            fns = []
+        text = ""
+        for p in cone_files:
+            if not p.endswith("/Zrnt/Gen/GoFuns.lean"):
+                text += open(p, errors="replace").read()
+        for fn in fns:
+            if re.search(r"\b" + re.escape(fn) + r"\b", text):
+                items.add("go2lean:" + fn)
+        if not fns:
+            items.add("go2lean:")
+    return items
+
+
 def regen(log):
     """Regenerate lean/Zrnt/Gen/* from /repo's working tree.
     Returns list of (name, ok, output) with names `go2lean:<LeanFunction>` and `extract:<table>`
@@ -90,7 +122,27 @@ def regen(log):
                 m = re.match(r"TABLE (\S+) (ok|FAIL)(.*)", line)
                 if m:
                     seen = True
-                    res.append((f"extract:{m.group(1)}", m.group(2) == "ok", m.group(3).strip() or out[-1500:]))
+                    tab, tok, tmsg = m.group(1), m.group(2) == "ok", m.group(3).strip() or out[-1500:]
+                    # safety net (as for GoFuns): a regenerated table file that no longer compiles (it may carry
+                    # kernel-decided theorems about its rows) must not take down the driver, and with it the
+                    # checks of properties that do not read the table; it is charged to the properties that do,
+                    # and the last compiling copy is put back for everybody else
+                    for mod in GEN_TABLE_MODULES.get(tab, []):
+                        target = os.path.join(LEAN, "Zrnt/Gen", mod + ".lean")
+                        if not os.path.exists(target):
+                            continue
+                        good = target + ".good"
+                        rcb, outb = sh(["lake", "build", "Zrnt.Gen." + mod], cwd=LEAN, timeout=1800)
+                        if rcb == 0:
+                            subprocess.run(["cp", target, good])
+                        else:
+                            if tok:
+                                tok, tmsg = False, f"regenerated {mod}.lean does not compile: " + "; ".join(failed_decls(outb))[:1200]
+                            subprocess.run(["cp", target, target + ".rejected"])
+                            if os.path.exists(good):
+                                subprocess.run(["cp", good, target])
+                                sh(["lake", "build", "Zrnt.Gen." + mod], cwd=LEAN, timeout=1800)
+                    res.append((f"extract:{tab}", tok, tmsg))
             if rc != 0 and not seen:
                 res.append(("extract:build", False, out))
     bad = [n for n, ok, _ in res if not ok]
